@@ -83,20 +83,22 @@ def run_rules(forest, prop, tier='quick', only=None):
             continue
         rr = RuleResult(r)
         t0 = time.time()
+        obs = []
         try:
-            obs = list(r.fn(fx))
-            for o in obs:
+            for o in r.fn(fx):
                 o.rule = r.full
-            rr.obs = obs
+                obs.append(o)
             if len(obs) < r.min_inst:
                 rr.unknown = (f'matched {len(obs)} instance(s), fewer than the frozen minimum {r.min_inst} '
                               '(an anchor was restructured or removed)')
         except Unknown as u:
+            # obligations decided before the rule lost its footing stay decided
             rr.unknown = str(u)
         except RecursionError as ex:  # pragma: no cover
             rr.unknown = f'internal error: {type(ex).__name__}'
         except Exception as ex:  # internal error of a rule: analysis broken, never a verdict
             rr.unknown = f'internal error: {type(ex).__name__}: {ex} @ {traceback.format_exc().strip().splitlines()[-3:]}'
+        rr.obs = obs
         rr.wall = time.time() - t0
         results.append(rr)
     return fx, results
